@@ -323,8 +323,11 @@ pub struct HAcc {
 }
 
 impl Accessor for HAcc {
+    /// The accessor TYPE has a default (an empty declaration, like a script system without dependencies);
+    /// every harness system nevertheless returns its own per-instance accessor from `System::accessor`,
+    /// and that one is the declaration that counts.
     fn try_new() -> Option<Self> {
-        None
+        Some(HAcc { id: usize::MAX, reads: vec![], writes: vec![], fetch_reads: vec![], fetch_writes: vec![], ctx: Ctx::new(0, Ctx::identity_map()) })
     }
     fn reads(&self) -> Vec<ResourceId> {
         self.reads.clone()
